@@ -357,6 +357,10 @@ class Interp:
             return False
         return a is b or a == b
 
+    @staticmethod
+    def _is_none_obj(v: t.Any) -> bool:
+        return v is None or (isinstance(v, TypeV) and 'noneobj' in v.flags)
+
     def equal(self, a: t.Any, b: t.Any) -> bool:
         if isinstance(a, tuple) and isinstance(b, tuple):
             return len(a) == len(b) and all(self.equal(x, y) for x, y in zip(a, b))
@@ -365,6 +369,10 @@ class Interp:
         return self.same(a, b)
 
     def compare(self, op: ast.cmpop, a: t.Any, b: t.Any) -> bool:
+        if isinstance(op, (ast.Is, ast.IsNot)) and (self._is_none_obj(a) or self._is_none_obj(b)):
+            # the `None` object written where a type is expected (`(int, None)`): it is None, and nothing else is
+            r_ = self._is_none_obj(a) and self._is_none_obj(b)
+            return r_ if isinstance(op, ast.Is) else not r_
         if isinstance(op, ast.Is):
             return self.same(a, b)
         if isinstance(op, ast.IsNot):
@@ -422,7 +430,7 @@ class Interp:
             return False
         if fname == 'builtins.type':
             x = args[0]
-            if x is None:
+            if x is None or (isinstance(x, TypeV) and 'noneobj' in x.flags):
                 return T_real(type(None))
             if isinstance(x, TypeV):
                 if x is ANY or x.special == 'typing.Any':
@@ -809,6 +817,14 @@ def catalogue() -> t.List[t.Tuple[TypeV, t.Callable[[ConvResult], t.Optional[str
     add(TypeV('ClassVar[A]', origin=TypeV('typing.ClassVar', special='typing.ClassVar'), args=(A,), has_args_attr=True),
         raises(), 'other special forms are refused')
     add(_user('class with _converter', has_converter=True), kind('hasconverter'), 'HasConverter protocol')
+    # the object None where a type is expected (a member of a tuple / struct type literal): as in typing, it stands for NoneType
+    def none_as_type(r: ConvResult) -> t.Optional[str]:
+        if r.kind == 'recur' and r.args and isinstance(r.args[0], TypeV) and r.args[0].kclass is not None and r.args[0].kclass.real is type(None):
+            return None
+        if r.kind == 'conv' and r.cls == 'NoneConverter':
+            return None
+        return f"dispatched to {r!r}, documented: read as NoneType"
+    add(TypeV('None (the object, in a type literal)', flags=['noneobj']), none_as_type, 'None stands for its type')
     # a generic dataclass bound to arguments (G[int]): a subclass made by the package which advertises the class it was made from
     # as __origin__ (typing.get_origin() does not know it); its own _converter() is the one that has the substituted field types
     g_unbound = _user('class G(PaneBase, Generic[T])', has_converter=True)
